@@ -1,5 +1,6 @@
 """C05 — memory safety on untrusted input, the statically decidable clauses (DESIGN §4 C05)."""
 from .. import build, report, t0, irf
+from .. import oblig as _ob
 from ..build import AnalysisBroken
 
 INIT_SITES = {
@@ -116,6 +117,42 @@ def suites_num_guard(chk):
                       key='field-invariant suites_num writers')
 
 
+def no_resume_after_fail(chk):
+    """The T0 `fail` word records the error and yields (T0_CO): the coroutine is suspended *behind* the failed test.  Feeding more
+    input would resume it there, with the test's precondition violated -- the bounds derived for the bytecode (stack depth, context
+    accesses) all assume that a failure is final.  So every C function that re-enters <decoder>_run (other than the initialiser, which
+    starts from a zeroed context) must first test the recorded error and not run the interpreter when it is set."""
+    from ..oblig import Ob, Call, FieldLoad, NOCALL
+    R = 't0-no-resume-after-fail'
+    n = 0
+    obs = []
+    for key, src, st in (('x509_decoder', 'src/x509/x509_decoder.c', 'br_x509_decoder_context'),
+                         ('skey_decoder', 'src/x509/skey_decoder.c', 'br_skey_decoder_context'),
+                         ('pkey_decoder', 'src/x509/pkey_decoder.c', 'br_pkey_decoder_context'),
+                         ('x509_minimal', 'src/x509/x509_minimal.c', 'br_x509_minimal_context')):
+        P = t0.Program(key)
+        if P.native_id('fail') is None:
+            raise AnalysisBroken('%s: no fail native' % key)
+        U = _ob.funit(src)
+        L = irf.Layouts(U.unit)
+        o_err = L.field(st, 'err')[0]
+        run = 'br_%s_run' % key
+        initm = 'br_%s_init_main' % key
+        callers = [fn for fn, F in U.funcs.items() if fn != run and F.calls(run)]
+        if not callers:
+            raise AnalysisBroken('%s: no caller of %s in %s' % (key, run, src))
+        for fn in sorted(callers):
+            F = U.funcs[fn]
+            if F.calls(initm):
+                continue        # initialiser: context zeroed / error cleared just before
+            n += 1
+            obs.append(Ob(src, fn, FieldLoad(0, o_err, 'err'), ('pin', 33), NOCALL(run), ('pin', 0),
+                          'after a recorded failure the interpreter must not be re-entered: the next instruction is the one behind the failed check '
+                          '(e.g. a length counter already at 0 is decremented and bytes are stored past the destination)', rule=R))
+    _ob.run_obligations(chk, obs)
+    chk.floor('decoder entry points that re-enter an interpreter', n, 4)
+
+
 def run(tier):
     chk = report.Check('C05', tier,
                        'Static bounds for the T0 virtual machines that parse all untrusted input (X.509, keys, PEM, both handshakes): '
@@ -148,6 +185,7 @@ def run(tier):
     c02.length_gates(chk)
     from .. import engio, oblig as _ob
     _ob.run_obligations(chk, engio.bounds_obligations())
+    no_resume_after_fail(chk)
     from .. import bufcopy
     bufcopy.check(chk)
     chk.floor('interpreters', len(t0.INTERPRETERS), 7)
